@@ -71,6 +71,16 @@ def install() -> None:
     tl.DEFAULT_SELECTOR_SELECT_TIMEOUT = 0
     hh.DEFAULT_SELECTOR_SELECT_TIMEOUT = 0
     hh.time = CLOCK
+    # gzip stamps the current second into its header: freeze it so that a run is a pure function of the case
+    import gzip
+
+    class _FrozenTime:
+        def time(self) -> float:
+            return 1_700_000_000.0
+
+        def __getattr__(self, name: str) -> Any:
+            return getattr(time, name)
+    gzip.time = _FrozenTime()     # type: ignore[attr-defined]
     logging.disable(logging.CRITICAL)
     import warnings
     warnings.filterwarnings('ignore', category=RuntimeWarning, message='coroutine .* was never awaited')
@@ -793,8 +803,13 @@ def _run_threaded(self: World, client_name: str) -> World:
         self.run_returned = True
     except StopRun:
         pass
+    except Hung as e:
+        self.exceptions.insert(0, ('run', 'Hung: %s' % (e,)))
     except BaseException as e:
+        # run() ended by raising (in a real deployment: the connection's thread dies); the connection is over
         self.exceptions.append(('run', '%s: %s' % (type(e).__name__, e)))
+        self.run_returned = True
+        self.run_raised = True
     finally:
         CURRENT = None
     return self
